@@ -39,6 +39,18 @@ type Case struct {
 	RespSigned  bool     `json:"resp_signed,omitempty"`
 	ArtSigned   bool     `json:"artifact_signed,omitempty"`
 	Encrypted   bool     `json:"encrypted,omitempty"`
+	NoDest      bool     `json:"no_dest,omitempty"` // unsigned Response without Destination (legitimate: Destination is optional then)
+	Methods     []string `json:"methods,omitempty"` // per confirmation: "" = bearer | hok | sv (every confirmation counts, whatever its method)
+}
+
+func methodURI(m string) string {
+	switch m {
+	case "hok":
+		return "urn:oasis:names:tc:SAML:2.0:cm:holder-of-key"
+	case "sv":
+		return "urn:oasis:names:tc:SAML:2.0:cm:sender-vouches"
+	}
+	return ""
 }
 
 func nearOf(id, kind string) string {
@@ -107,12 +119,19 @@ func check(c Case) pbt.Result {
 	a := &r.Assertions[0]
 	a.Confirmations = nil
 	allConfIn := true
-	for _, cf := range c.Confs {
+	for i, cf := range c.Confs {
 		v, in := resolve(cf, c.Outstanding)
 		if !in {
 			allConfIn = false
 		}
-		a.Confirmations = append(a.Confirmations, forge.Confirmation{Recipient: forge.S(spkit.SPACS), InResponseTo: v, NotOnOrAfter: forge.TP(now.Add(300e9))})
+		m := ""
+		if i < len(c.Methods) {
+			m = methodURI(c.Methods[i])
+		}
+		a.Confirmations = append(a.Confirmations, forge.Confirmation{Method: m, Recipient: forge.S(spkit.SPACS), InResponseTo: v, NotOnOrAfter: forge.TP(now.Add(300e9))})
+	}
+	if c.NoDest && !c.RespSigned {
+		r.Destination = nil
 	}
 	sign := &forge.SignSpec{Key: "idp"}
 	if c.RespSigned {
@@ -279,9 +298,9 @@ var outstandingSets = [][]string{
 	{"id-aaaa1111", "id-bbbb2222", "id-cccc3333"},
 	{""},
 	{"id-aaaa1111", ""},
-	{"id-aaaa1111", "id-aaaa11110", "id-aaaa111"},      // near-miss set: prefix / extension of each other
-	{"ID-AAAA1111", "id-aaaa1111x"},                    // case / plus-x
-	{"id-aaaa1111", "id-aaaa1111", "d-aaaa1111"},       // duplicate + suffix
+	{"id-aaaa1111", "id-aaaa11110", "id-aaaa111"}, // near-miss set: prefix / extension of each other
+	{"ID-AAAA1111", "id-aaaa1111x"},               // case / plus-x
+	{"id-aaaa1111", "id-aaaa1111", "d-aaaa1111"},  // duplicate + suffix
 }
 
 var refClasses = []string{"match", "match", "match", "other", "not", "near", "empty", "absent"}
@@ -324,6 +343,10 @@ func gen(t *rapid.T) Case {
 			c.Confs = append(c.Confs, genRef(t, "conf"))
 		}
 	}
+	for range c.Confs {
+		c.Methods = append(c.Methods, rapid.SampledFrom([]string{"", "", "", "hok", "sv"}).Draw(t, "method"))
+	}
+	c.NoDest = !c.RespSigned && rapid.IntRange(0, 2).Draw(t, "nodest") == 0
 	if strings.HasPrefix(c.Entry, "artifact") && rapid.IntRange(0, 1).Draw(t, "artbad") == 0 {
 		c.Artifact = Ref{Class: rapid.SampledFrom([]string{"not", "near", "empty", "absent"}).Draw(t, "art")}
 		if c.Artifact.Class == "near" {
@@ -364,8 +387,11 @@ func enumClassProduct(tier string, emit func(Case)) {
 										continue
 									}
 									c := Case{Outstanding: append([]string{}, set...), Resp: rr, Confs: []Ref{cr}, AllowIDP: allow, Validator: val, Entry: entry, Artifact: ar, RespSigned: idx%2 == 0, ArtSigned: idx%3 == 0}
+									c.NoDest = !c.RespSigned && idx%4 == 1
+									c.Methods = []string{[]string{"", "hok", "sv", ""}[idx%4]}
 									if two {
 										c.Confs = []Ref{rr, cr}
+										c.Methods = []string{"", []string{"hok", "", "sv", ""}[idx%4]}
 									}
 									emit(c)
 								}
@@ -380,14 +406,14 @@ func enumClassProduct(tier string, emit func(Case)) {
 
 var prop = &pbt.Prop[Case]{
 	ID: "C04",
-	Rule: "cases: a genuinely IdP-signed, otherwise valid response whose InResponseTo at the Response and at each of 0-3 subject confirmations is {matching, other outstanding, not outstanding, near-miss (prefix/suffix/case/+x/space), empty, absent} relative to a declared outstanding set " +
+	Rule: "cases: a genuinely IdP-signed, otherwise valid response whose InResponseTo at the Response and at each of 0-3 subject confirmations is {matching, other outstanding, not outstanding, near-miss (prefix/suffix/case/+x/space), empty, absent} (confirmations of any method: bearer, holder-of-key, sender-vouches; unsigned Responses with and without Destination) relative to a declared outstanding set " +
 		"({}, {a}, {a,b,c}, {\"\"}, {a,\"\"}, near-miss sets, random sets), crossed with AllowIDPInitiated, custom ValidateRequestID {none, accept, reject} and entry point {XML, POST, ParseXMLArtifactResponse, ParseResponse+SAMLart with a harness resolver that reads the ArtifactResolve ID the SP just issued}; " +
 		"class product enumerated completely in thorough (every 7th member in quick) plus rapid draws. oracle: reference model (absent = \"\"); with AllowIDPInitiated / custom validator only the positive clause is judged; zero confirmations judged on the response-level clause only. " +
 		"non-trivial: outstanding set with >= 2 members, \"\" or near-miss members, response- and confirmation-level classes differ, near-miss value, or artifact entry. distinct: sha256 of the JSON case.",
-	Gen:   gen,
-	Check: check,
-	Reset: fix.Reset,
-	Enums: []pbt.Enum[Case]{{Name: "class-product", Each: enumClassProduct}},
+	Gen:         gen,
+	Check:       check,
+	Reset:       fix.Reset,
+	Enums:       []pbt.Enum[Case]{{Name: "class-product", Each: enumClassProduct}},
 	Assumptions: []string{"all other conditions (addressing, instants, signatures) are valid in every case"},
 }
 
